@@ -26,6 +26,8 @@ def run(rep, tier):
     H.r_dir_mirror(rep, hc)
     rep.rule("R-TIME-MINMAX", "time points in the output handler are never ordered with a bare min/max/clamp (direction-dependent): only sorted pairs or under a direction test")
     H.r_time_minmax(rep, hc)
+    rep.rule("R-TIME-ORDER", "an ordering test between two time points (a time difference compared with a tolerance, not under abs) is never evaluated in the same form for both directions of integration")
+    H.r_time_order(rep, hc)
     H.r_nextidx_mono(rep, hc)
     H.r_teval_before_interrupt(rep, hc)
     H.r_term(rep, hc)
